@@ -120,10 +120,11 @@ def rhTail (s : Streams) (k : Nat) (h : HeadersIn) (isInitial : Bool) : Streams 
       | .ok method uri =>
         let s := s.modStream k fun st => { st with pendingRecv := st.pendingRecv ++ [.request method uri h.fields] }
         let s := s.modStreamW k Stream.notifyRecv
+        let s := s.notifyPushIfRecvEnded k
         ((s.qPush .pendingAccept k).1, .ok)
     else if !h.isInformational then
       let s := s.modStream k fun st => { st with pendingRecv := st.pendingRecv ++ [.headers status h.fields] }
-      (s.modStreamW k Stream.notifyRecv, .ok)
+      ((s.modStreamW k Stream.notifyRecv).notifyPushIfRecvEnded k, .ok)
     else
       let s := s.modStream k fun st => { st with pendingRecv := st.pendingRecv ++ [.informational status h.fields] }
       (s.modStreamW k Stream.notifyRecv, .ok)
@@ -204,7 +205,7 @@ theorem rhTail_delivers (s : Streams) (k : Nat) (h : HeadersIn) (i : Bool) :
     · rename_i m u hc
       refine ⟨?_, fun x => by cases x⟩
       refine Delivers.step (Delivers.step (delivers_append _ s k _ ⟨rfl, ho', ?_⟩) (quiet_modStreamW _ _ _ keeps_notifyRecv))
-        ((Quiet.refl _).qPush _ _)
+        (((Quiet.refl _).notifyPushIfRecvEnded _).qPush _ _)
       refine ⟨hsrv, hc, ?_, fun hpr => ?_, rfl⟩
       · cases hst : h.status with
         | none => rfl
@@ -217,7 +218,8 @@ theorem rhTail_delivers (s : Streams) (k : Nat) (h : HeadersIn) (i : Bool) :
     split
     · rename_i hi
       refine ⟨?_, fun x => by cases x⟩
-      refine Delivers.step (delivers_append _ s k _ ⟨rfl, ho', ?_⟩) (quiet_modStreamW _ _ _ keeps_notifyRecv)
+      refine Delivers.step (Delivers.step (delivers_append _ s k _ ⟨rfl, ho', ?_⟩) (quiet_modStreamW _ _ _ keeps_notifyRecv))
+        ((Quiet.refl _).notifyPushIfRecvEnded _)
       exact ⟨hsrv', by simpa using hi, rfl, rfl⟩
     · rename_i hi
       refine ⟨?_, fun x => by cases x⟩
@@ -269,7 +271,7 @@ theorem recvRecvTrailers_delivers (s : Streams) (k : Nat) (h : HeadersIn) :
     · split
       · exact ⟨q1.delivers, fun _ _ => q1⟩
       · rename_i hov
-        refine ⟨q1.then (Delivers.step (delivers_append _ s1 k _ ⟨rfl, rfl, by simpa using hov⟩)
-          (quiet_modStreamW _ _ _ keeps_notifyRecv)), fun e he => by cases he⟩
+        refine ⟨q1.then (Delivers.step (Delivers.step (delivers_append _ s1 k _ ⟨rfl, rfl, by simpa using hov⟩)
+          (quiet_modStreamW _ _ _ keeps_notifyRecv)) (quiet_modStreamW _ _ _ keeps_notifyPush)), fun e he => by cases he⟩
 
 end H2V.Lemmas.ConnHttpP
